@@ -138,6 +138,7 @@ type Engine struct {
 	addrTaken map[*types.Var]bool   // struct fields whose address is taken (&p.f)
 	Guarded   map[string]string     // "pkg.Type.field" -> name of the mutex field protecting it
 	GuardedProps map[string][]string
+	Callers   []*CallersSpec        // `callers` clauses (coverage.go)
 	Owned     []*OwnedSpec          // ownership of struct fields by a set of functions (coverage.go)
 	Monitors  map[string]*Contract // "pkg.Type.mutexfield" -> invariant (Requires) and rely/guarantee (Ensures)
 	modCache  map[*types.Func]map[string]bool
@@ -383,9 +384,10 @@ var clauseKeywords = map[string]bool{
 	"onlysafety": true, "unfold": true, "assert": true, "cases": true, "partial": true,
 	"lemma": true, "induction": true, "uses": true, "hint": true, "reads": true, "guard": true,
 	"guarded": true, "unshared": true, "fnparam": true, "monitor": true, "stepinv": true,
-	"typing": true, "cut": true, "noterm": true, "owned": true, "checkpre": true,
+	"typing": true, "cut": true, "noterm": true, "owned": true, "callers": true, "checkpre": true,
 }
 
+var callersRe = regexp.MustCompile(`^(.+?)\s+only\s+(.+?)\s+for\s+(.+)$`)
 var ownedRe = regexp.MustCompile(`^(.+?)\s+by\s+(.+?)\s+for\s+(.+)$`)
 var usingRe = regexp.MustCompile(`^([A-Za-z_][A-Za-z0-9_]*)\s+using\s+([A-Za-z0-9_, ]+):\s*(.*)$`)
 var fnparamRe = regexp.MustCompile(`^([A-Za-z_][A-Za-z0-9_]*)\(([^)]*)\)\s*:\s*(.*)$`)
@@ -561,6 +563,19 @@ func (e *Engine) parseContracts(body, pkgPath, file string, line0 int) error {
 				os.Owners = append(os.Owners, strings.TrimSpace(o))
 			}
 			e.Owned = append(e.Owned, os)
+			cur, curLoop = nil, nil
+		case "callers":
+			// callers (*T).Method only fn1, fn2 for PROP...   — the method (of this package) may be
+			// called from the listed functions only, anywhere in the repository
+			m := callersRe.FindStringSubmatch(strings.TrimSpace(rc.text))
+			if m == nil {
+				return fmt.Errorf("%s:%d: callers (*T).M only fn[, fn...] for PROP...", file, rc.line)
+			}
+			cs := &CallersSpec{Key: pkgPath + "." + strings.TrimSpace(m[1]), Props: strings.Fields(m[3])}
+			for _, o := range strings.Split(m[2], ",") {
+				cs.Allowed = append(cs.Allowed, strings.TrimSpace(o))
+			}
+			e.Callers = append(e.Callers, cs)
 			cur, curLoop = nil, nil
 		case "spec":
 			sf, err := parseSpecFn(rc.text, pkgPath)
